@@ -186,6 +186,7 @@ class FnSpec:
         self.body_end = ''
         self.keep_sig = False
         self.broadcast = None
+        self.nloops = None
 
 
 def parse_fn_block(header, lines):
@@ -231,6 +232,9 @@ def parse_fn_block(header, lines):
             if kw == 'expect_sig':
                 flush()
                 fs.expect_sig = arg
+            elif kw == 'nloops':
+                flush()
+                fs.nloops = int(arg)
             elif kw == 'broadcast':
                 flush()
                 fs.broadcast = arg.strip()
@@ -361,8 +365,10 @@ def gen_fn(fs, cfg, log, vac=False):
         if vac:
             after += ' proof { assert(false); } // @VAC %s loop%d\n' % (where, k)
         body = body[:ob] + ins + '{' + after + body[ob + 1:]
-    if len(loops) != len(fs.loops) and not fs.keep_sig:
-        log.append(dict(where=where, note='loops in body: %d, annotated: %d' % (len(loops), len(fs.loops))))
+    expected = fs.nloops if fs.nloops is not None else len(fs.loops)
+    if len(loops) != expected:
+        # a loop was added or removed: ordinal-anchored invariants would land on the wrong loop
+        raise ExtractError('%s: %d loops in the rewritten body, the contract was written for %d (lost anchor)' % (where, len(loops), expected))
     # body start / end
     inner = body.strip()
     assert inner[0] == '{' and inner[-1] == '}'
